@@ -479,6 +479,14 @@ func (e *exec) Kill(sig os.Signal) error {
 		// process "not started yet": like the command executor, the signal is lost
 		return nil
 	}
+	e.c.mu.Lock()
+	dead := e.c.open[e.spec.Name] != r
+	e.c.mu.Unlock()
+	if dead {
+		// like kill(2) on the process group of a process that has exited (a
+		// failed attempt waiting for its retry): the command executor returns ESRCH
+		return syscall.ESRCH
+	}
 	select {
 	case r.kill <- sig:
 	default:
